@@ -1308,6 +1308,18 @@ class Interp:
             outs = []
             for n, kd in zip(carried, kinds):
                 v = fr.vars[n]
+                if isinstance(v, LazyGen):
+                    # a generator expression carried into the next iteration is evaluated later, with the
+                    # values its free variables have THEN (late binding): not a function of this step
+                    free = {x.id for x in ast.walk(v.node) if isinstance(x, ast.Name) and isinstance(x.ctx, ast.Load)}
+                    rebound = (_assigned_names(body) | _target_names(target)) & free
+                    f = v.frame
+                    own = False
+                    while f is not None:
+                        own = own or f is fr
+                        f = f.closure
+                    if own and rebound:
+                        raise Unsupported(f"a generator expression carried across iterations closes over {sorted(rebound)}, rebound by the loop (late binding)")
                 if kd == "seq":
                     sq = lib.seq_of(self, v)
                     if sq is None:
